@@ -43,14 +43,17 @@ claim("C02", "proof",
       "read back from the compiled parser for each conflict-free grammar of the run, which instantiates the theorems to gocc's output for all "
       "token sequences; the compiled parser is also compared with the extracted model and with an independent Earley recogniser, including "
       "sentences of about 1500 tokens built by iterated recursion (deep stacks, long lists) with near misses. For EVERY grammar: LR/Gen.v, a "
-      "Gallina model of gocc's generator proved to output only tables that pass the validators, is compared with gocc on every grammar of the run.",
+      "Gallina model of gocc's generator proved to output only tables that pass the validators, is compared with gocc on every grammar of the run; "
+      "its input (numbered productions, symbol order, terminal numbering, look-ahead order, action flags) is computed by the front-end model "
+      "Front/SynAst.v from the BYTES of each grammar file and compared with gocc's symbol table: the comparison runs from the file to the tables.",
       LR_NOTE + " Termination on non-sentences: proved only when LR/ErrorPos.v is present; otherwise covered by the correspondence run (partial).",
       "Rocq proof (LR soundness+completeness for validated tables) + kernel-evaluated translation validation of gocc's tables + differential correspondence", "6 C02")
 claim("C03", "proof",
       "Coq theorems (Properties/C03.v): when Parse succeeds, value and action log are exactly the post-order evaluation of the actions over a "
       "parse tree of the input (each action once per node, children's attributes in order, terminals carry the scanner's token object, default "
       "= first attribute, empty = nil); a failing action ends the parse with that error and no further action. Same R/K ties as C02 with "
-      "logging actions using $i, $Ti, $Context and a chosen failing call, on grammars without AND with error-recovery alternatives (an "
+      "logging actions using $i, $Ti, $Context (the Context field changes at every Scan: $Context is the value stored when the action runs), "
+      "actions on empty alternatives, and a chosen failing call, on grammars without AND with error-recovery alternatives (an "
       "action's error must not be recovered from); an implementation-only oracle checks log/result consistency and the failing-call clause.",
       LR_NOTE, "Rocq proof (stack invariant carrying ghost trees and threaded evaluation) + translation validation + differential correspondence", "6 C03")
 
@@ -168,7 +171,9 @@ claim("C01", "proof",
       "Brzozowski-correct against the textbook matches relation for dot-free rules; (c) soundness of bisim_check: check = true implies the "
       "emitted DFA and the definitional tokenizer return the same tokens on ALL byte strings. On every run the verified checker is executed on "
       "(lexical part as gocc parsed it, DFA re-read from the emitted Go files) for every grammar (extracted), and by the Coq kernel "
-      "(vm_compute) for a sample; compiled lexers are compared with the definitional tokenizer on generated inputs.",
+      "(vm_compute) for a sample; compiled lexers are compared with the definitional tokenizer on generated inputs. The lexical part itself is "
+      "recomputed from the BYTES of each grammar file by the front-end model Front/LexAst.v (scanner model, pattern parser proved a left "
+      "inverse of the printer, literal decoding, token numbering) and must equal what gocc parsed.",
       "Coq kernel; extraction; verifdump lexdump prints the AST gocc parsed; multi-character regular definitions: recorded findings (3 witnesses) "
       "until the macro-expansion fix lands; imports outside the model.",
       "Rocq proof (derivatives + verified bisimulation checker = per-grammar translation validation for all inputs) + differential correspondence", "6 C01")
